@@ -55,7 +55,7 @@ impl Prop for C11 {
         &[
             "probe.peek_spans_unmatched", "probe.peek_reaches_switch", "probe.peek_zero", "probe.peek_all_n",
             "probe.peek_reached_end", "probe.peek_not_found", "probe.peek_in_nonzero_mode", "probe.peek_after_reset",
-            "probe.next_after_peek", "probe.peek_n_found_and_switch",
+            "probe.next_after_peek", "probe.peek_n_found_and_switch", "probe.with_offset_mid_history",
         ]
     }
     fn uses_cache(&self) -> bool {
@@ -91,7 +91,10 @@ impl<'w> Gen for Gen11<'w> {
             0 => Op::Next { it },
             1 => Op::PeekN { it, n: gen_peek_n(rng) },
             2 => Op::SetModeIter { it, mode: rng.below(self.m.n_modes(it)) },
-            _ => Op::SetOffset { it, offset: self.m.pick_boundary(rng, it, None) },
+            _ => {
+                let offset = self.m.pick_boundary(rng, it, None);
+                gen_reset(rng, it, offset)
+            }
         })
     }
     fn observe(&mut self, op: &Op, obs: &Obs) {
@@ -123,6 +126,10 @@ fn apply_plain(f: &mut FindMatches<'_>, op: &Op) -> Option<Option<Tok>> {
         Op::Next { .. } => Some(f.next().map(|m| sut::tok(&m))),
         Op::SetOffset { offset, .. } => {
             f.set_offset(*offset);
+            None
+        }
+        Op::WithOffsetMid { offset, .. } => {
+            sut::replace_with(f, |x| x.with_offset(*offset));
             None
         }
         Op::SetModeIter { mode, .. } => {
@@ -292,10 +299,13 @@ impl<'w> Exec for Exec11<'w> {
                 }
                 StepOut::ok(obs)
             }
-            Op::Next { it } | Op::SetOffset { it, .. } | Op::SetModeIter { it, .. } => {
+            Op::Next { it } | Op::SetOffset { it, .. } | Op::WithOffsetMid { it, .. } | Op::SetModeIter { it, .. } => {
                 let Some(Some(st)) = self.iters.get_mut(*it) else { return StepOut::skipped() };
                 match op {
-                    Op::SetOffset { offset, .. } => {
+                    Op::SetOffset { offset, .. } | Op::WithOffsetMid { offset, .. } => {
+                        if matches!(op, Op::WithOffsetMid { .. }) {
+                            mark("probe.with_offset_mid_history");
+                        }
                         if *offset > st.input.len() || !st.input.is_char_boundary(*offset) {
                             return StepOut::skipped();
                         }
